@@ -226,7 +226,7 @@ def run_task(task):
     return res
 
 
-def explore_raw(hname, params, pre=None, max_paths=200000, canary=None, path_alarm=30.0):
+def explore_raw(hname, params, pre=None, max_paths=200000, canary=None, path_alarm=30.0, deadline=None):
     """In-process enumeration of every path of a harness; yields (ctx, ex, outcome, status) per path.
     `pre(ctx)` runs before the harness on each path (e.g. to assert a parameter cell)."""
     h = resolve(hname)
@@ -266,7 +266,12 @@ def explore_raw(hname, params, pre=None, max_paths=200000, canary=None, path_ala
         n += 1
         yield ctx, ex, outcome, status
         prefix = next_prefix(ex.decisions)
-        if prefix is None or n >= max_paths:
+        if prefix is None:
+            return
+        if n >= max_paths or (deadline is not None and time.time() > deadline):
+            # the tree was not exhausted: the caller must not report success
+            ctx2 = Ctx("sym", ex=ex, params=params)
+            yield ctx2, ex, None, "inconclusive:path/time budget of a law exploration exhausted"
             return
 
 
